@@ -85,7 +85,8 @@ def gen_timestamps(rng, files, k, ms=False):
     return out
 
 
-def check_lookup(rec, fs, reg, layout, files, t, filters, names, periods, case, via, shared=None):
+def check_lookup(rec, fs, reg, layout, files, t, filters, names, periods, case, via, shared=None,
+                 sub_case=None):
     # the caller keeps one dictionary per filter setting and passes that same object to every search
     # of the case (a loop over timestamps); the oracle works on the harness' own copy
     call_filters = filters
@@ -102,6 +103,8 @@ def check_lookup(rec, fs, reg, layout, files, t, filters, names, periods, case, 
     # (a replay repeats the earlier searches that were given the same dictionary)
     sub = dict(case, stamps=list(earlier) + [[t.isoformat(), filters, via]])
     earlier.append([t.isoformat(), filters, via])
+    if sub_case is not None:
+        sub = sub_case
     rec.ev()
     rec.count("closest.calls" if via == "closest" else "getitem.calls")
     got_path, got_none = None, False
@@ -204,13 +207,28 @@ def run_case(rec, case):
             fs = fm.make_fileset(base, layout, name="F", exclude=excl or None,
                                  handler=FileHandler(reader=reader))
         shared = {}
-        for ts, filters, via in case["stamps"]:
+        # population history: some files (whole new directories among them) arrive while the object is
+        # in use - they are held back outside the tree and moved in after the first searches
+        late = {p for p, f in reg.items() if f["id"] in set(case.get("late_ids", []))}
+        hold = base + "-late"
+        for p in late:
+            os.renames(p, hold + p[len(base):])
+        cur = {p: f for p, f in reg.items() if p not in late} if late else reg
+        arrive_at = case.get("late_after", 0)
+        for idx, (ts, filters, via) in enumerate(case["stamps"]):
+            if late and idx == arrive_at:
+                for p in late:
+                    os.renames(hold + p[len(base):], p)
+                cur = reg
+                rec.count("closest.populations_grown_between_searches")
             if filters and not layout.with_sat:
                 continue
-            check_lookup(rec, fs, reg, layout, files, dt.datetime.fromisoformat(ts), filters,
-                         set(names), periods, case, via, shared=shared)
+            check_lookup(rec, fs, cur, layout, files, dt.datetime.fromisoformat(ts), filters,
+                         set(names), periods, case, via, shared=shared,
+                         sub_case=dict(case, stamps=case["stamps"][:idx + 1]) if late else None)
     finally:
         shutil.rmtree(base, ignore_errors=True)
+        shutil.rmtree(base + "-late", ignore_errors=True)
 
 
 def single_case(rec, rng):
@@ -267,6 +285,10 @@ def gen_case(rng):
     case = c01.make_case([layout], files, names_idx, periods, [])
     case["kind"] = "closest"
     case["stamps"] = stamps
+    if len(files) >= 2 and len(stamps) >= 4 and rng.random() < 0.3:
+        k = rng.randrange(1, len(files))
+        case["late_ids"] = sorted(f["id"] for f in rng.sample(files, k))
+        case["late_after"] = rng.randrange(1, len(stamps) - 1)
     if rng.random() < 0.25:
         case["prev_dirs"] = rng.choice([d[0] for d in fm.DIR_LAYOUTS
                                         if not any("{sat}" in x or "*" in x for x in d[1])
